@@ -16,7 +16,6 @@ package http2
 // `Req.H2.ConnSeq` (clientRun / serverRun over a stateful codec) in the Lean driver.
 
 import (
-	"os"
 	"bytes"
 	"context"
 	"errors"
@@ -25,6 +24,7 @@ import (
 	"math/rand"
 	"net"
 	"net/http"
+	"os"
 	"sort"
 	"strings"
 	"testing"
@@ -193,6 +193,14 @@ func c01GenSeqReq(r *rand.Rand, prev *c01SeqReq, limit uint32) *c01SeqReq {
 	}
 	for i, n := 0, r.Intn(4); i < n; i++ {
 		fc.Header[verifh.Pick(r, c01SeqNames)] = []string{verifh.Pick(r, c01SeqValues)}
+	}
+	// round 6 — MULTI-LINE fields: a key given as several field lines (2..4 values; Cookie lines of
+	// 1..3 cookie-pairs each, under the canonical and / or a non-canonical spelling of the name)
+	if r.Intn(3) == 0 {
+		for i, n := 0, 1+r.Intn(2); i < n; i++ {
+			k := verifh.Pick(r, []string{"Cookie", "Cookie", "Cookie", "cookie", "X-A", "X-B", "x-c", "Accept", "Accept-Language", "X-E"})
+			fc.Header[k] = verifh.C01GenLines(r, k, c01SeqValues)
+		}
 	}
 	if r.Intn(5) == 0 {
 		fc.Host = verifh.Pick(r, []string{"other.example", "other.example:81", "UPPER.example"})
@@ -511,6 +519,19 @@ func TestVerif_C01_h2seq(t *testing.T) {
 						ok, why = false, fmt.Sprintf("request %d: X-* pair %q differs by %d between what was set and what the server decoded", k, p, -d)
 					}
 				}
+				// oracle (round 6): every field LINE of every caller key arrived — multisets per
+				// value, cookie-pairs over all Cookie lines
+				if lok, lwhy := verifh.C01LinesOracle(fc.Header, fields); !lok {
+					ok, why = false, fmt.Sprintf("request %d: %s", k, lwhy)
+				}
+				for hk, vs := range fc.Header {
+					if len(vs) > 1 && !strings.HasPrefix(hk, "__") {
+						count("multi-line")
+						if strings.EqualFold(hk, "cookie") {
+							count("multi-line-cookie")
+						}
+					}
+				}
 				count("block-decoded")
 				if refusedBefore {
 					count("accepted-after-local-refusal")
@@ -533,7 +554,7 @@ func TestVerif_C01_h2seq(t *testing.T) {
 		s.Case("c01connseq "+lim+" "+strings.Join(line, " "), strings.Join(impl, " ; "), ok, "", nontriv, "limit="+lim+" "+strings.Join(human, " ")+" "+why)
 	}
 	for _, b := range []string{"block-decoded", "accepted-after-local-refusal", "err:toolarge", "err:header", "err:host", "cancelled:", "trailer-block",
-		"kind:bodyerr", "kind:toolong", "kind:peerrst", "kind:cancelafter"} {
+		"kind:bodyerr", "kind:toolong", "kind:peerrst", "kind:cancelafter", "multi-line", "multi-line-cookie"} {
 		if hist[b] == 0 {
 			t.Errorf("lane did not reach bucket %q (vacuous pass refused)", b)
 		}
